@@ -234,6 +234,7 @@ Obs(e) ==
     [] e.ev = "CloseB"   -> ObsCloseB(e)
     [] e.ev = "CloseE"   -> ObsCloseE(e)
     [] e.ev = "Env"      -> Skip
+    [] e.ev = "Open"     -> Skip      \* an object is created in mid-scenario (nothing of it was observable before)
     [] e.ev = "PollB"    -> ObsPollB(e)
     [] e.ev = "PollE"    -> ObsPollE(e)
     [] e.ev = "Sample"   -> ObsSample(e)
